@@ -99,6 +99,10 @@ def r1_three_way(cx):
                     arms = list(dict.fromkeys(t["targets"] + [t["otherwise"]]))
                     reach = [a for a in arms if any(i in gb.reachable(a, avoid={s}) for i, _ in idx)]
                     guard_ok = len(reach) == 1
+    # the checked form: self.packs.get(pack_id) (an Option; no panicking index at all)
+    if not idx:
+        gets = [t for _, t in gb.calls(r"slice::<impl \[.*\]>::get::<|Vec::<.*>::get$|\]>::get(::<.*>)?$") if ("field", "packs") in gb.origins(t["args"][0]) and ("param", 2) in gb.origins(t["args"][1])]
+        guard_ok = len(gets) >= 1
     cx.ob("R1", "R1/get_pack/slot-index-guarded", guard_ok, g, "self.packs[pack_id] is reached only under the comparison of pack_id with packs.len()")
     miss_in = _aggs(gb, "MayMissPack", "MISSING")
     cx.ob("R1", "R1/get_pack/forwards-MISSING", len(miss_in) >= 1 and gb.calls(r"Container::_get_pack$") != [], g, "get_pack forwards MISSING(pack_info) from _get_pack")
@@ -181,7 +185,8 @@ def r4_check_skips_missing(cx):
         ok = s is not None
         if ok:
             false_rets = [i for i, blk in enumerate(b.blocks) for st in blk["s"] if st["k"] == "assign" and st["lhs"]["l"] == 0 and st["rv"]["k"] == "agg" and st["rv"].get("variant") == "Ok" and op_const_val(st["rv"]["fields"][0]) is False]
-            r = b.reachable(none_t, avoid={s, nx[0][0]})
+            # path-sensitive: a helper answering Ok(true) for an absent pack continues the loop through `if !ok`
+            r, _ = b.explore(start=none_t, avoid={s, nx[0][0]})
             ok = nx[0][0] in b.reachable(none_t, avoid={s}) and not any(x in r for x in false_rets) and not (b.error_blocks() & r) and not (b.panic_blocks() & r)
     cx.ob("R4", "R4/Container.check-skips-absent-packs", ok, f, "when locate answers None the loop goes to the next pack: no Ok(false), no error, no panic on that arm")
 
